@@ -24,7 +24,7 @@ MIN_NONTRIVIAL = {"quick": 200, "thorough": 2000}
 REQUIRED_FUNCTIONS = ["listener.py:BlackbirdListener.exitInclude", "listener.py:BlackbirdListener.exitStatement", "__init__.py:load"]
 FUNCTIONS = REQUIRED_FUNCTIONS + ["program.py:BlackbirdProgram.__call__"]
 REQUIRED_TAGS = ["nested>=2", "repeat-call", "template-call", "cwd:main-dir", "cwd:parent", "cwd:root", "cwd:unrelated", "path:relative",
-                 "path:absolute", "include:subdir", "include:repeated-line", "include:abs+rel", "neg:arity", "neg:keywords"]
+                 "path:absolute", "include:subdir", "include:repeated-line", "include:abs+rel", "neg:arity", "neg:keywords", "include:symlink-dotdot", "call-in-loop", "template-call-in-loop"]
 ASSUMPTIONS = ["reference inlining rule: DESIGN Appendix A rule 11 (sorted(sub.modes) -> call modes, parameters bound from keywords)",
                "files are ASCII; sub-programs contain no measured registers (the statement renames modes only)"]
 
@@ -157,11 +157,45 @@ def build(rng, g):
     for _ in range(rng.choice([0, 1, 2, 3])):
         body.append(G.statement(allow_sym=False))
     rng.shuffle(body)
+    if rng.random() < 0.3:
+        # a subroutine applied inside a for loop; its keyword values and/or modes depend on the loop variable
+        (name, path, nmodes, params, depth) = rng.choice(subs)
+        v = "lv" + str(rng.randint(0, 9))
+        vt = rng.choice(["int", "float"]) if params else "int"
+        modes = rng.sample(range(30, 60), nmodes)
+        mtxt = ", ".join(str(m) for m in modes)
+        if vt == "int" and rng.random() < 0.6:
+            mtxt = ", ".join([v + " + 60"] + [str(m) for m in modes[1:]])
+        kw = ""
+        if params:
+            tags.add("template-call-in-loop")
+            kw = "(" + ", ".join("%s=%s" % (p, rng.choice([v, v + "*0.5", "0.25", v + " + 1"])) for p in params) + ")"
+        body.append("for %s %s in %s" % (vt, v, rng.choice(["1:4", "[1, 2, 4]", "0:3"])))
+        body.append("    %s%s | [%s]" % (name, kw, mtxt))
+        tags.add("call-in-loop")
+        tags.add("repeat-call")
     lines.extend(body)
     main_path = os.path.join(main_dir, "main.xbb")
     files[main_path] = "\n".join(lines) + "\n"
     info = {"tags": tags, "subs": subs, "ncalls": len(calls)}
     return files, main_path, info
+
+
+def build_symlink_case(rng, g):
+    """A directory reached through a symbolic link whose files include '../x': the
+    operating system resolves '..' against the link's target, not against the link's name."""
+    used = "".join(rng.choice("abcdefgh") for _ in range(4))
+    child_ops = "Sgate(0.%d) | 3\nBSgate | [3, 8]\n" % rng.randint(1, 9)
+    decoy_ops = "Rgate(0.%d) | 3\nKgate(1) | 8\nVac | 3\n" % rng.randint(1, 9)
+    files = {
+        "shared/pkg/xbb/par_%s.xbb" % used: "name Par%s\nversion 1.0\ninclude \"../child.xbb\"\n\nDgate(0.5) | 5\nChild | [5, 12]\nVac | 12\n" % used,
+        "shared/pkg/child.xbb": "name Child\nversion 1.0\n\n" + child_ops,
+        "proj/child.xbb": "name Child\nversion 1.0\n\n" + decoy_ops,
+        "proj/main.xbb": "name Main%s\nversion 1.0\ninclude \"vendor/par_%s.xbb\"\n\nPar%s | [%d, %d]\nVac | 0\n" % (used, used, used, rng.randint(0, 9), rng.randint(10, 19)),
+        "__symlinks__": {"proj/vendor": rng.choice(["../shared/pkg/xbb", "@ABS@/shared/pkg/xbb"])},
+    }
+    info = {"tags": {"include:symlink-dotdot", "nested>=2", "include:subdir"}, "subs": [("Par" + used, "proj/vendor/par_%s.xbb" % used, 2, [], 2)], "ncalls": 1}
+    return files, "proj/main.xbb", info
 
 
 def negative_variant(rng, files, main_path, info):
@@ -205,23 +239,33 @@ def negative_variant(rng, files, main_path, info):
 
 def materialise(root, files):
     for rel, text in files.items():
+        if rel == "__symlinks__":
+            continue
         p = os.path.join(root, rel)
         os.makedirs(os.path.dirname(p), exist_ok=True)
         with open(p, "w", encoding="ascii") as f:
             f.write(text.replace("@ABS@", root))
+    for link, target in files.get("__symlinks__", {}).items():
+        lp = os.path.join(root, link)
+        os.makedirs(os.path.dirname(lp), exist_ok=True)
+        os.symlink(target.replace("@ABS@", root), lp)
 
 
 def ref_of(files, main_path, root):
     g = common.grammar()
-    abs_files = {os.path.normpath(os.path.join(root, k)): v.replace("@ABS@", root) for k, v in files.items()}
     opened = []
 
     def fs(p):
+        # the tree has been materialised under root: let the operating system resolve the path
         opened.append(p)
-        return abs_files.get(os.path.normpath(p))
+        try:
+            with open(p, encoding="ascii") as f:
+                return f.read()
+        except OSError:
+            return None
 
     main_abs = os.path.join(root, main_path)
-    text = abs_files[os.path.normpath(main_abs)]
+    text = fs(main_abs)
     ok, bad, toks = g.is_sentence(text)
     if not ok:
         return ("nosentence",)
@@ -269,7 +313,7 @@ def check_tree(ctx, files, main_path, info, rng, negative=None):
         materialise(root, files)
         k = ref_of(files, main_path, root)
         witness = {"files": files, "main": main_path}
-        payload = repr(sorted(files.items()))
+        payload = repr(sorted((k_, v_ if isinstance(v_, str) else sorted(v_.items())) for k_, v_ in files.items()))
         if negative:
             if k[0] != "ill" or not k[1].kind.startswith("include-"):
                 return ctx.out_of_domain("negative include case not ill-formed as intended (%s)" % (k[0] if k[0] != "ill" else k[1].kind))
@@ -323,7 +367,10 @@ def run(ctx):
     for i in range(n):
         rng = ctx.rng(i)
         try:
-            files, main_path, info = build(rng, g)
+            if rng.random() < 0.06:
+                files, main_path, info = build_symlink_case(rng, g)
+            else:
+                files, main_path, info = build(rng, g)
         except RuntimeError as e:
             ctx.out_of_domain("generator: " + str(e).split(":")[0])
             continue
